@@ -181,6 +181,11 @@ pub enum Op {
     Query { node: u8 },
     /// Builder::generate_keypair() through this node's resolver and RNG seam (twice)
     Keygen { node: u8 },
+    /// `count` deliveries of distinct seeded garbage messages of `len` bytes to `node` (long
+    /// histories: state that only matters after very many rejected deliveries)
+    GarbageBurst { node: u8, count: u32, len: u16, seed: u32 },
+    /// `count` times: `node` writes a `plen`-byte message and its peer reads it in order
+    TrafficBurst { node: u8, count: u32, plen: u16 },
     /// marks the start of the fault-free epilogue (bookkeeping only)
     Epilogue,
 }
@@ -200,6 +205,8 @@ impl Op {
             Op::Delay { .. } => "delay",
             Op::Query { .. } => "query",
             Op::Keygen { .. } => "keygen",
+            Op::GarbageBurst { .. } => "garbage-burst",
+            Op::TrafficBurst { .. } => "traffic-burst",
             Op::Epilogue => "epilogue",
         }
     }
